@@ -16,7 +16,7 @@ LIFETIMES = ['a', 'h', 'b', 'de', 'this', 'r#fn'][:5]
 CONST_NAMES = ['N', 'M', 'LEN', 'K', 'T2']
 # const parameters live in the value namespace: these collide with the value binders of the expansion
 CONST_BINDER_NAMES = ['this', 'other', 'state', 'f', 'rhs', 'source', 'lhs', 'o', 'to_index', '_self_0', 'l_0', '_0', 'r_0',
-                      '_other_0', '_this_0']
+                      '_other_0', '_this_0', 'by', 'v_0', 'self_0', 'idx', 'index', 'value', 'x', 'a', 'b']
 
 NEUTRAL = dict(ty='Zq', lt='q', tp='Pq', cp='Kq', fields=['fa', 'fb', 'fc', 'fd'], variants=['Va', 'Vb', 'Vc'])
 
@@ -184,9 +184,13 @@ class C13(Prop):
                                          fields=rng.sample(FIELD_NAMES, 4), variants=tn[2:5]))
                     for ri, names in enumerate(rens):
                         out.append((gid, ri, names, shape, traits, mode, with_attrs, None))
-                    # one renaming with a const parameter named like a generated value binder
-                    if tier != 'quick' or gid % 4 == 0:
-                        if not any(t in traits for t in ('Add', 'SubAssign', 'Not', 'BitXor', 'ShlAssign', 'Deref')):
+                    # renamings with a const parameter named like a value binder of the expansion: EVERY such name for the
+                    # plain programs (a const parameter shares the namespace of the generated patterns and locals)
+                    if not any(t in traits for t in ('Add', 'SubAssign', 'Not', 'BitXor', 'ShlAssign', 'Deref')):
+                        if with_attrs == 0:
+                            for bi, bn in enumerate(CONST_BINDER_NAMES):
+                                out.append((gid, 100 + bi, NEUTRAL, shape, traits, mode, with_attrs, bn))
+                        elif tier != 'quick' or gid % 4 == 0:
                             out.append((gid, 99, NEUTRAL, shape, traits, mode, with_attrs, rng.choice(CONST_BINDER_NAMES)))
         return out
 
